@@ -642,13 +642,15 @@ ssize_t ZCK_PUBLIC_API zck_write(zckCtx *zck, const char *src, const size_t src_
     }
 }
 
-ssize_t ZCK_PUBLIC_API zck_end_chunk(zckCtx *zck) {
+ssize_t comp_end_chunk(zckCtx *zck, bool force) {
     VALIDATE_WRITE_INT(zck);
 
     if(!zck->comp.started && !comp_init(zck))
         return -1;
 
-    if(zck->comp.dc_data_size < zck->chunk_min_size) {
+    /* The last chunk of a file has to be written out even if it's smaller
+     * than the minimum chunk size */
+    if(!force && zck->comp.dc_data_size < zck->chunk_min_size) {
         zck_log(ZCK_LOG_DDEBUG, "Chunk too small, refusing to end chunk");
         return zck->comp.dc_data_size;
     }
@@ -679,6 +681,10 @@ ssize_t ZCK_PUBLIC_API zck_end_chunk(zckCtx *zck) {
     zck_log(ZCK_LOG_DDEBUG, "Finished chunk size: %llu", (long long unsigned) data_size);
     free(dst);
     return data_size;
+}
+
+ssize_t ZCK_PUBLIC_API zck_end_chunk(zckCtx *zck) {
+    return comp_end_chunk(zck, false);
 }
 
 ssize_t ZCK_PUBLIC_API zck_read(zckCtx *zck, char *dst, size_t dst_size) {
